@@ -43,6 +43,9 @@ CLAIMED = {
  'C19': ('round-trip and differential property testing of every encoding (SEC1, hex, SPKI/PKCS#8/SEC1 DER, PEM, GM/T 0009 ASN.1 ciphertext) against an independent strict DER/PEM codec and OpenSSL documents; stored and walked keys/nonces with leading-zero coordinates; exhaustive malformed lengths, truncations and bit flips of encodings',
          'Every key (edge scalars, stored scalars whose point has 2-3 leading zero bytes, a walk of 1200 consecutive scalars, generated ones) is encoded and decoded through all forms in both directions, against documents written by the reference codec (with/without parameters and public key) and by OpenSSL; decoders must reject, without panicking, every wrong length 0..=70, wrong prefix, off-curve or >= p coordinate, malformed hex and every truncation of DER documents, and whatever they accept from bit-flipped documents must be a valid key. encrypt_asn1 with injected k (C1 coordinates with 0..3 leading zero bytes, top bit set, all four flag combinations) must yield exactly SEQUENCE{INTEGER x, INTEGER y, OCTET STRING C3, OCTET STRING C2} of the reference ciphertext and round-trip; 72 OpenSSL documents must decrypt.',
          'Trusted: harness/src/refimpl/der.rs (reproduces OpenSSL 3.0.20 SPKI, PKCS#8 and SM2Cipher documents byte for byte). For corrupted DER only no-panic and validity-of-what-is-accepted are asserted.', '5/C19'),
+ 'C13': ('property-based differential testing of the SM9 tower (Fp, Fp2, Fp4, Fp12), mod-N arithmetic, Booth recoding and G1/G2 group operations against a polynomial-basis / affine big-integer reference; exhaustive zero-component masks, table entries and single-window scalars; constructed Jacobian representations',
+         'Every tower operation (add, sub, mul, sqr, neg, halve, invert, pow, four Frobenius maps, conjugations, sparse/line products, u- and v-multiplications) is compared with Fp[w]/(w^12+2) arithmetic on operands whose components are zero with probability 0.3 or edge-biased, plus every subset of zero components (4/16/4096 masks) for inversion, squaring, halving and multiplication; mod-N add/sub/mul on all pairs of boundary-limb values, inv/pow around N and p; Booth recodings for w = 5, 7; all 2368 fixed-base table entries, every single-window fixed-base scalar and every 5-bit window value x position x carry for variable-base multiplication; G1 and G2 add/sub/double/neg/equality/scalar multiplication on equal, opposite and generic points in chosen Jacobian representations, compared with the affine group law in both directions.',
+         'Trusted: harness/src/refimpl/{field,ec,sm9}.rs (self-checks: a*a^-1 = 1, Frobenius formula == x^p, [N]P1 = [N]P2 = O, all GM/T 0044.5 Annex vectors reproduced). Operands are canonical. Hooks: constructors/accessors for Fp2/Fp4/Fp12, crate-private operations, table. One open known finding (TwistPoint::point_equals) is excluded by exact signature.', '5/C13'),
 }
 PENDING_REASON = 'check not implemented yet in this commit (work in progress; planned in DESIGN.md section 5) — not claimed until its machinery exists and is silent on the unchanged tree'
 
